@@ -30,6 +30,7 @@ import (
 	"github.com/versity/versitygw/s3api"
 	"github.com/versity/versitygw/s3api/middlewares"
 	"github.com/versity/versitygw/s3event"
+	"github.com/versity/versitygw/s3log"
 )
 
 type Options struct {
@@ -41,6 +42,10 @@ type Options struct {
 	Wrap func(backend.Backend) backend.Backend
 	// IAMCache: run the internal IAM service behind the gateway's account cache (the gateway's default).
 	IAMCache bool
+	// AccessLog: write S3 access logs to a file below the temporary directory (the --access-log option)
+	AccessLog bool
+	// Admin: serve the admin API on the same port (the gateway's default when no admin port is given)
+	Admin bool
 }
 
 type Cred struct{ Access, Secret string }
@@ -93,11 +98,21 @@ func Start(t testing.TB, o Options) *GW {
 	if o.Readonly {
 		opts = append(opts, s3api.WithReadOnly())
 	}
+	if o.Admin {
+		opts = append(opts, s3api.WithAdminServer())
+	}
 	var gwbe backend.Backend = be
 	if o.Wrap != nil {
 		gwbe = o.Wrap(be)
 	}
-	_, err = s3api.New(app, gwbe, middlewares.RootUserConfig{Access: rootC.Access, Secret: rootC.Secret}, ":0", "us-east-1", iam, nil, nil, o.EvSender, nil, opts...)
+	var alog s3log.AuditLogger
+	if o.AccessLog {
+		alog, err = s3log.InitFileLogger(filepath.Join(top, "access.log"))
+		if err != nil {
+			t.Fatalf("access log: %v", err)
+		}
+	}
+	_, err = s3api.New(app, gwbe, middlewares.RootUserConfig{Access: rootC.Access, Secret: rootC.Secret}, ":0", "us-east-1", iam, alog, nil, o.EvSender, nil, opts...)
 	if err != nil {
 		t.Fatalf("s3api.New: %v", err)
 	}
